@@ -97,6 +97,7 @@ func SetupServer(credentials []settings.Credentials, region string, apiEndpoint 
 		rootHandler = authentication.MakeSignatureMiddleware(authCreds, region, rootHandler)
 	} else {
 		slog.Warn("Authentication is disabled, this is not recommended for production use")
+		rootHandler = authentication.MakeAwsChunkedDecodingMiddleware(rootHandler)
 	}
 	rootHandler = httpmiddleware.MakeRequestContextMiddleware(rootHandler)
 
